@@ -40,12 +40,13 @@ def setting_value(rng, name, allow_false=True):
         if allow_false and rng.random() < 0.2:
             return False
         return True
+    # 0 is a legal depth too (and the classic victim of `if not value`)
     if name == "qq_depth":
-        return rng.choice((1, 2, 3))
+        return rng.choice((1, 2, 3, 1, 2, 3, 0))
     if name == "qq_depth_min":
-        return rng.choice((1, 2, 3, 3))
+        return rng.choice((1, 2, 3, 3, 0))
     if name == "qq_depth_max":
-        return rng.choice((2, 2, 3))
+        return rng.choice((2, 2, 3, 2, 3, 0))
     raise KeyError(name)
 
 
